@@ -1,5 +1,6 @@
 import FrappyProofs.Lemmas.Config
 import FrappyProofs.Lemmas.Merge
+import FrappyProofs.Lemmas.WriteLoop
 import FrappyModel.Klass.ConfigDT
 import FrappyModel.Generated.C10
 /-
@@ -122,49 +123,47 @@ theorem config_applied_own (ops : Ops DT Val) (c : ClassDesc DT Val) (cfg : Cfg 
 
 /-! ## written exactly once, before the first poll -/
 
-/-- for an accepted configuration of a well-formed class:
-(1) the configured (else class level) value of a parameter with a write method is handed to it,
-(2) no parameter is written twice, (3) the first poll comes after all writes and only once,
-(4) nothing is written that has no write method -/
+/-- for an accepted configuration of a well-formed class, and for EVERY write oracle (plain `write_<p>`, common write
+handlers which pop the configured values of their siblings, hand-written methods popping anything):
+(1) the configured (else class level) value of a parameter with a write method is registered for writing,
+(2) no parameter is registered twice, (3) nothing is registered that has no write method,
+(4) the start-up of the poll thread hands every registered value to a write method exactly once — as the argument of a
+call or as a sibling value the call consumes — all of it before the first poll, and nothing afterwards -/
 theorem writes_once_before_poll (ops : Ops DT Val) (c : ClassDesc DT Val) (cfg : Cfg Val) (i : Instance DT Val)
-    (wf : WellFormed c) (h : applyConfig ops c cfg = .ok i) :
+    (wf : WellFormed c) (h : applyConfig ops c cfg = .ok i) (consumes : WriteOracle Val) :
     (∀ pd dt0 dflt x, pd ∈ c.params → startOf ops c cfg pd = some (dt0, dflt) →
         pd.hasWrite = true → givenFor "value" pd.value ((cfgOf pd.name cfg).getD []) = some x →
-        Ev.write pd.name x ∈ prologue i) ∧
+        (pd.name, x) ∈ i.writeDict) ∧
     (i.writeDict.map (·.1)).Nodup ∧
-    (prologue i = i.writeDict.map (fun kv => Ev.write kv.1 kv.2) ++ [Ev.firstPoll]) ∧
-    (∀ p v, Ev.write p v ∈ prologue i → ∃ pd ∈ c.params, pd.name = p ∧ pd.hasWrite = true) := by
+    (∀ p v, (p, v) ∈ i.writeDict → ∃ pd ∈ c.params, pd.name = p ∧ pd.hasWrite = true) ∧
+    HandedOnce (prologue consumes i) i.writeDict := by
   have acc := accepted_of_ok ops c cfg i h
   obtain ⟨outs, hrun, _, hwd, _, _⟩ := accepted_run ops c cfg i acc
-  refine ⟨?_, ?_, rfl, ?_⟩
+  have hnd : (i.writeDict.map (·.1)).Nodup := by
+    rw [hwd]
+    have hs := writes_sublist outs
+    rw [run_names ops cfg c.params [] outs hrun] at hs
+    exact hs.nodup wf.paramNames
+  refine ⟨?_, hnd, ?_, ?_⟩
   · intro pd dt0 dflt x hpd hs hw hx
     obtain ⟨outs', o, _, hwd', ho, hname, pk, _⟩ := accepted_param ops c cfg i acc wf pd hpd dt0 dflt hs
     obtain ⟨dt', _, _, hval, _, _⟩ := pk.dt
     have hwv := (hval x hx).2.2
     rw [hw] at hwv
-    simp only [prologue, writeInitParams, List.mem_append, List.mem_map]
-    left
-    refine ⟨(pd.name, x), ?_, rfl⟩
     rw [hwd', List.mem_filterMap]
     exact ⟨o, ho, by simp [writeOf, hwv, hname]⟩
-  · rw [hwd]
-    have hs := writes_sublist outs
-    rw [run_names ops cfg c.params [] outs hrun] at hs
-    exact hs.nodup wf.paramNames
-  · intro p v hin
-    simp only [prologue, writeInitParams, List.mem_append, List.mem_map, List.mem_singleton] at hin
-    rcases hin with ⟨kv, hkv, heq⟩ | hfp
-    · cases heq
-      rw [hwd, List.mem_filterMap] at hkv
-      obtain ⟨o, ho, hw⟩ := hkv
-      obtain ⟨insts', pd, hpd, hadd⟩ := run_mem' ops cfg c.params [] outs hrun o ho
-      cases hov : o.write with
-      | none => simp [writeOf, hov] at hw
-      | some v' =>
-        simp only [writeOf, hov, Option.map_some, Option.some.injEq] at hw
-        refine ⟨pd, hpd, ?_, write_some ops insts' pd _ o v' hadd hov⟩
-        rw [← addParam_name ops _ _ _ _ hadd, ← hw]
-    · cases hfp
+  · intro p v hkv
+    rw [hwd, List.mem_filterMap] at hkv
+    obtain ⟨o, ho, hw⟩ := hkv
+    obtain ⟨insts', pd, hpd, hadd⟩ := run_mem' ops cfg c.params [] outs hrun o ho
+    cases hov : o.write with
+    | none => simp [writeOf, hov] at hw
+    | some v' =>
+      simp only [writeOf, hov, Option.map_some, Option.some.injEq, Prod.mk.injEq] at hw
+      refine ⟨pd, hpd, ?_, write_some ops insts' pd _ o v' hadd hov⟩
+      rw [← addParam_name ops _ _ _ _ hadd, hw.1]
+  · refine ⟨writeInitParams consumes i, [], rfl, Lemmas.WriteLoop.writeLoop_no_poll consumes _ _, ?_, rfl⟩
+    exact Lemmas.WriteLoop.writeLoop_handed consumes _ _ hnd (fun kv hkv => List.mem_map_of_mem hkv)
 
 /-! ## the node: nothing registered for a failing module, all failing modules reported -/
 
@@ -373,7 +372,22 @@ def exCfg : Cfg Int :=
 instance shows datatype 0..20, start value 15, readonly 1, and the prologue is `write pa 15; firstPoll` -/
 example : (match applyConfig toyOps exClass exCfg with
     | .ok i => (i.params.map (fun p => (p.dt, p.value, p.own))) == [(some (0, 20), some 15, [("readonly", 1)])]
-        && prologue i == [Ev.write "pa" 15, Ev.firstPoll]
+        && handed (prologue (fun _ _ _ => []) i) == [("pa", 15)] && (prologue (fun _ _ _ => []) i).length == 2
+    | .error _ => false) = true := by decide
+
+def exPI : ClassDesc (Int × Int) Int :=
+  { modProps := [⟨"description", some, true, none⟩],
+    params := [{ exParam with name := "p" }, { exParam with name := "i" }, { exParam with name := "d" }], otherNames := [] }
+
+/-- a common write handler over `p`, `i`, `d`: whichever is called takes the configured values of the others -/
+def pidOracle : WriteOracle Int := fun _ _ _ => ["p", "i", "d"]
+
+/-- three configured values, ONE call: `write p 5` consuming `i = 7` and `d = 9`, then the first poll; each value is
+handed over exactly once.  (A loop over a snapshot of the VALUES would call the handler three times.) -/
+example : (match applyConfig toyOps exPI [("description", .prop (.bare 7)), ("p", .acc [("value", 5)]),
+      ("i", .acc [("value", 7)]), ("d", .acc [("value", 9)])] with
+    | .ok i => (prologue pidOracle i).length == 2 && handed (prologue pidOracle i) == [("p", 5), ("i", 7), ("d", 9)]
+        && (prologue (fun _ _ _ => []) i).length == 4
     | .error _ => false) = true := by decide
 
 /-- the hypotheses of `config_applied` / `writes_once_before_poll` are met by this example -/
